@@ -560,6 +560,7 @@ impl Report {
         let mut n_sigs_before = self.sig_hashes.len();
         let mut check_exec = 0u64;
         let mut check_viol = 0u64;
+        let mut verified_viol = 0u64;
         for (i, (p, r)) in pts.iter().zip(results.into_iter()).enumerate() {
             self.evaluations += 1;
             let o = match r {
@@ -605,9 +606,14 @@ impl Report {
                 check_viol += 1;
                 // determinism: the same point must fail identically twice more - alone on a fresh thread, or, failing
                 // that, after the shortest suffix of the points that preceded it in its run
+                // (only the first 12 violating points of a check are re-executed - at most 10 replay files are written per
+                // run; the later ones are counted and classified against the known findings, but not re-run: a change that
+                // breaks hundreds of points would otherwise spend minutes confirming each of them twice)
+                verified_viol += 1;
                 let run_start = i - i % run_len;
                 let prefix: Vec<usize> = (run_start..i).collect();
-                let hist = match Self::shortest_history(c, &pts, &prefix, i, &o.viols) {
+                let hist = if verified_viol > 12 { Some(vec![]) } else { Self::shortest_history(c, &pts, &prefix, i, &o.viols) };
+                let hist = match hist {
                     Some(h) => h,
                     None => {
                         self.machinery.push(format!(
